@@ -27,6 +27,7 @@ type scen struct {
 	Dir      string   `json:"direction"` // read | write : which side of the wrapped end is exercised
 	Chunk    int      `json:"peer_chunk"`
 	Strategy string   `json:"strategy"`
+	Ctx      string   `json:"context,omitempty"` // "", deadline, parent-deadline
 	Seed     int64    `json:"seed"`
 	Trace    []string `json:"trace,omitempty"`
 	Prefix   []int    `json:"prefix,omitempty"`
@@ -66,7 +67,17 @@ func runOne(sc *scen, st sched.Strategy, settle bool, hit map[int]bool) (rs resu
 	defer func() {
 		netctx.VerifYield, connctx.VerifYield = nil, nil
 	}()
+	// the context of the first operation: plain, or with a deadline an hour away (on itself or on its parent) - it is ended
+	// by cancel() in every case
 	ctx1, cancel := context.WithCancel(context.Background())
+	switch sc.Ctx {
+	case "deadline":
+		ctx1, cancel = context.WithTimeout(context.Background(), time.Hour)
+	case "parent-deadline":
+		parent, pc := context.WithTimeout(context.Background(), 2*time.Hour)
+		defer pc()
+		ctx1, cancel = context.WithCancel(parent)
+	}
 	var mu sync.Mutex
 	var got, sent []byte // bytes received / reported written
 	type opres struct {
@@ -341,6 +352,9 @@ func main() {
 			d := &sched.DFS{Prefix: prefix, Bound: 2}
 			c := dsc
 			c.Dir += suffix
+			if suffix != "" {
+				c.Ctx = "deadline"
+			}
 			c.Prefix = prefix
 			rs := one(&c, d, true)
 			r.Count("dfs_schedules", 1)
@@ -357,7 +371,7 @@ func main() {
 	dirs = []string{"read", "write", "read-idle", "write-idle"}
 	rng := rand.New(rand.NewSource(*seed*1201 + int64(*shard)*71 + 43))
 	for i := 0; i < n; i++ {
-		sc := &scen{Kind: kinds[rng.Intn(2)], Dir: dirs[rng.Intn(len(dirs))], Chunk: []int{3, 7, 64}[rng.Intn(3)], Seed: rng.Int63()}
+		sc := &scen{Kind: kinds[rng.Intn(2)], Dir: dirs[rng.Intn(len(dirs))], Chunk: []int{3, 7, 64}[rng.Intn(3)], Seed: rng.Int63(), Ctx: []string{"", "", "deadline", "parent-deadline"}[rng.Intn(4)]}
 		if rng.Intn(5) == 0 {
 			sc.Strategy = "random"
 		} else {
